@@ -2,7 +2,8 @@
 
 use crate::env::{self, Cb};
 use crate::exec::OpOut;
-use crate::ops_map::{forget_remaining, range_of, win, Session};
+use crate::ops_iter::consume;
+use crate::ops_map::{finish_iter, forget_remaining, range_of, win, Session};
 use crate::payload::{Class, SimK, SimV};
 use crate::plan::{AlgKind, AlgUse, CloneKeep, End, Form, Op, RelKind, T};
 use crate::sink::Sink;
@@ -58,35 +59,15 @@ pub fn set_op<K: SimK, V: SimV, const C: usize>(s: &mut Set<K, C>, cx: &mut Cx<K
         Op::SDrain { take, end, .. } => {
             let mut sess = Session::new("Set::drain", pre, (true, false));
             {
-                let mut d = win!(aw, s.drain());
-                loop {
-                    sess.before_step(d.len(), d.size_hint());
-                    if sess.taken >= *take as usize && *end != End::Exhaust {
-                        break;
-                    }
-                    match win!(aw, d.next()) {
-                        Some(k) => {
-                            sess.got(k.peek().id, 0, (K::ANON, true));
-                            cx.ret_k("Set::drain", k);
-                        }
-                        None => {
-                            sess.none();
-                            for _ in 0..3 {
-                                if let Some(k) = win!(aw, d.next()) {
-                                    sess.got(k.peek().id, 0, (K::ANON, true));
-                                    cx.ret_k("Set::drain", k);
-                                }
-                            }
-                            break;
-                        }
-                    }
-                }
-                match end {
-                    End::Forget => {
+                let d = win!(aw, s.drain());
+                let rest = consume(d, cx, &mut sess, *take, *end, |x: &K| (x.peek().id, 0), |cx, x| cx.ret_k("Set::drain", x), (K::ANON, true));
+                if let Some(d) = rest {
+                    if *end == End::Forget {
                         forget_remaining(cx, pre, &sess, false);
                         std::mem::forget(d);
+                    } else {
+                        win!(aw, drop(d));
                     }
-                    _ => win!(aw, drop(d)),
                 }
             }
             let left = snap_set(s);
@@ -97,38 +78,19 @@ pub fn set_op<K: SimK, V: SimV, const C: usize>(s: &mut Set<K, C>, cx: &mut Cx<K
         Op::SIntoIter { take, end, .. } => {
             let mut sess = Session::new("Set::into_iter", pre, (true, false));
             let owned = std::mem::replace(s, Set::new());
-            let mut it = win!(aw, owned.into_iter());
-            loop {
-                sess.before_step(it.len(), it.size_hint());
-                if sess.taken >= *take as usize && *end != End::Exhaust {
-                    break;
-                }
-                match win!(aw, it.next()) {
-                    Some(k) => {
-                        sess.got(k.peek().id, 0, (K::ANON, true));
-                        cx.ret_k("Set::into_iter", k);
-                    }
-                    None => {
-                        sess.none();
-                        for _ in 0..3 {
-                            if let Some(k) = win!(aw, it.next()) {
-                                sess.got(k.peek().id, 0, (K::ANON, true));
-                                cx.ret_k("Set::into_iter", k);
-                            }
-                        }
-                        break;
-                    }
-                }
-            }
-            match end {
-                End::Forget => {
+            let it = win!(aw, owned.into_iter());
+            let rest = consume(it, cx, &mut sess, *take, *end, |x: &K| (x.peek().id, 0), |cx, x| cx.ret_k("Set::into_iter", x), (K::ANON, true));
+            if let Some(it) = rest {
+                if *end == End::Forget {
                     forget_remaining(cx, pre, &sess, false);
                     std::mem::forget(it);
+                } else {
+                    win!(aw, drop(it));
                 }
-                _ => win!(aw, drop(it)),
             }
         }
-        Op::SIter { take, clone_at, .. } => {
+        Op::SIter { take, clone_at, fin, .. } => {
+            let (fin, k) = (*fin, *take as usize);
             let mut it = win!(aw, s.iter());
             let mut j = 0;
             while j < *take as usize {
@@ -144,7 +106,9 @@ pub fn set_op<K: SimK, V: SimV, const C: usize>(s: &mut Set<K, C>, cx: &mut Cx<K
                 }
                 j += 1;
             }
-            cx.dg(it.len() as u64);
+            finish_iter!(it, fin, k, cx, aw, |x| {
+                cx.see_k("Set::iter", x, base, size);
+            });
         }
         Op::SClone { keep, .. } => {
             if !pre.is_empty() {
@@ -157,6 +121,25 @@ pub fn set_op<K: SimK, V: SimV, const C: usize>(s: &mut Set<K, C>, cx: &mut Cx<K
                 CloneKeep::KeepClone => {
                     let old = std::mem::replace(s, c2);
                     win!(aw, drop(old));
+                }
+                CloneKeep::CloneFrom(prefill) => {
+                    cx.probe("set_clone_from_into_nonempty");
+                    win!(aw, drop(c2));
+                    let mut dst: Set<K, C> = Set::new();
+                    for i in 0..(*prefill as usize).min(C) {
+                        let k = cx.mk_k(100 + i as u32);
+                        win!(aw, dst.insert(k));
+                    }
+                    let src = std::mem::replace(s, dst);
+                    let r = std::panic::catch_unwind(std::panic::AssertUnwindSafe(|| win!(aw, s.clone_from(&src))));
+                    crate::world::observing(|| crate::world::wf_set("source of clone_from", &src, cx.lying));
+                    match r {
+                        Ok(()) => win!(aw, drop(src)),
+                        Err(p) => {
+                            crate::world::observing(|| drop(src));
+                            std::panic::resume_unwind(p);
+                        }
+                    }
                 }
             }
         }
@@ -305,6 +288,12 @@ where
             let mut sink = Sink::new(4096, None);
             let r = win!(aw, core::fmt::write(&mut sink, format_args!("{:?}", it)));
             cx.dg(r.is_ok() as u64);
+            if !K::ANON && !cx.lying {
+                // Debug lists exactly what the adaptor will still yield (as a clone of it shows)
+                let rest: Vec<(u64, u64)> = crate::world::observing(|| it.clone().map(|k| (k.peek().id, 0)).collect());
+                let res: std::thread::Result<core::fmt::Result> = Ok(r);
+                crate::ops_fmt::check_iter_text(cx, what, res, &sink, &rest, 1, crate::plan::Style::Debug, 0);
+            }
             // the adaptor was not consumed by formatting: the clone taken before and the original agree
             let (n1, n2) = (win!(aw, c2.count()), win!(aw, it.count()));
             if n1 != n2 {
